@@ -198,12 +198,14 @@ func c01Script(sc *L1Scenario, tier int) {
 		ws1 = append(ws1, w)
 	}
 	t1 := sc.customTree(bs[1], ws1)
+	// one unrelated output first, so that the output indices used below differ from the bridge ids
+	for _, b := range bs {
+		sc.NextWSeq[b] = uint64(len(ws) + 1)
+		sc.ProposeTree(b, sc.MakeTree(b, 1))
+	}
 	p00, ok00 := sc.ProposeTree(bs[0], t0) // bridge-0 tree on bridge 0
 	p01, ok01 := sc.ProposeTree(bs[1], t0) // the same root on bridge 1
 	p11, ok11 := sc.ProposeTree(bs[1], t1) // the twin on bridge 1
-	for _, b := range bs {
-		sc.NextWSeq[b] = uint64(len(ws) + 1) // sequences of later random trees do not reuse the scripted ones
-	}
 	// every bridge gets two more (not yet final) outputs; then the last output of a LOWER-id bridge is
 	// deleted while the higher-id bridges hold outputs
 	extraOut := func(b uint64) { sc.ProposeTree(b, sc.MakeTree(b, 1+r.Intn(2))) }
@@ -274,7 +276,7 @@ func genC01(seed uint64, tier, outdir string) *Report {
 	w.Create, w.Deposit, w.Propose, w.Delete, w.Claim, w.Send, w.Params = 8, 22, 16, 12, 26, 10, 4
 	return runMoneyStream(MoneyStream{Prop: "C01", Weights: w, NRandom: [2]int{18, 200}, Len: [2]int{60, 140},
 		Scripts: []func(*L1Scenario, int){c01Script}, NScript: [2]int{18, 200},
-		Monitors: []L1Monitor{c01Monitor, provenLeafMonitor("C01")},
+		Monitors: []L1Monitor{c01Monitor, provenLeafMonitor("C01"), doublePayMonitor("C01")},
 		Prep:     whalePrep, Spice: (*L1Scenario).variantStep, SpicePct: 10,
 		Rule: "a case is one multi-bridge L1 history on a fresh instance (scripted cross-bridge replay scenario plus random tail, or fully random); distinct by hash of the op list; non-trivial = at least one finalization accepted and at least one rejected"},
 		seed, tier, outdir)
